@@ -10,6 +10,11 @@ NOT_APPLICABLE = {
 for k in ['C01','C02','C03','C04','C05','C06','C07','C10','C11','C12','C13','C14','C15','C16','C17','C18','C19','C20']:
     NOT_APPLICABLE.setdefault(k, UNDER)
 CHECKS = {
+ 'C02': {
+  'text': 'Verus proves on the real Reader::nns_by_leaf: on any index whose forest satisfies the C01 invariant (every root a well-formed tree over exactly the stored items) and with an unlimited budget (search_k x oversampling saturating to usize::MAX), with or without a candidate filter: the traversal loses nothing (loop invariant: every stored item inside the filter is already collected or lies below a queued node; the queue is drained), so every stored item inside the filter is either returned or the result is full (len = count) and that item is not nearer, in (distance, id) order, than any returned one; together with the C03 clauses (distinct, sorted nearest first, at most count, each distance computed from the CURRENT leaf of that id) this is exactly the min(count, n) nearest stored items; no deleted or overwritten vector can be returned because every candidate is scored from its current Item key; the search never reports MissingKey on such a forest.',
+  'note': 'Exactness is relative to the computed built_distance in OrderedFloat order; closeness of that value to the real-number metric is floating point (C11/C12). Depends on C01 for the precondition.',
+  'technique': 'Verus loop invariants (reachability / heap order) on the extracted real search function',
+ },
  'C17': {
   'text': 'Verus proves on the real upgrade functions, for all database contents: (1) cosine_from_0_4_to_0_5: under the well-formedness of the old database, Ok implies that the write view is exactly the fold, over the old entries in key order, of the reference re-tagging written from the property statement (items copied byte for byte under kind Item; tree nodes with both children re-tagged; the metadata record with the metric renamed; one Updated mark per id of the old pending-updates bitmap; nothing else, the write database being cleared first); errors are heed errors or CannotDecodeKeyMode; no panic. (2) from_0_5_to_0_6: the write view gains a version record for exactly the indexes 0..=65535 that have metadata in the read view and nothing else changes.',
   'note': 'LazyDecode::decode is assumed total (A3). That the result opens / satisfies C01 is C06/C01 on the resulting view.',
@@ -36,7 +41,7 @@ CHECKS = {
  },
  'C03': {
   'text': 'Verus proves on the real Reader::nns_by_leaf (arbitrary count, search_k, oversampling, candidates; any database whose nodes are locally well-formed): at most count results; pairwise distinct ids; every id has an Item key in the snapshot and lies in the candidate filter; each reported distance is normalized_distance(built_distance(query, CURRENT leaf of that id), declared dimension); results are ordered nearest first (ties by id) in OrderedFloat order; the budget actually used is search_k, or count x number-of-trees saturating, times oversampling, or the metric default, saturating (assertion inside the function; Kani checks the per-metric default constants 1/1/1/1/3/3/3); no panic (unwrap_item, unreachable!, ilog2 of 0, overflow). Reader::nns starts with no budget/oversampling/filter; by_item on an unknown id returns Ok(None); by_vector rejects a wrong length (C19).',
-  'note': 'PARTIAL: budget monotonicity, unlimited-budget exactness under a filter and the by_item/by_vector equivalence are not decided (see evidence not_decided_clauses).',
+  'note': 'PARTIAL: budget monotonicity and the by_item/by_vector equivalence are not decided (see evidence not_decided_clauses); unlimited budget + filter = exact search restricted to the filter is proved (same obligation as C02).',
   'technique': 'Verus postconditions + loop invariants on the extracted real search function',
  },
  'C18': {
@@ -45,11 +50,10 @@ CHECKS = {
   'technique': 'Verus postconditions + loop invariants on extracted real functions',
  },
  'C04': {
-  'text': 'Kani proves on the real default methods, for ALL f32 values: Distance::side stores an item Right iff its margin is positive and Left iff negative (zero margin = random, exempt); Distance::pq_distance gives the child on the margin side a priority >= the other child, equal only when the inherited bound d <= -|margin|, and from a root (+inf) the priorities are exactly (-margin, margin). A static guard checks that no metric overrides these two methods.',
-  'note': 'PARTIAL: the writer-side placement clauses (insert_items_in_file / make_tree_in_file put an item under left iff side() returned Left; rewritten splits keep left/right) and the reader push order are claimed only where the build-chain / reader units are listed in the evidence; symmetry margin(n,q)=margin(q,n) is an IEEE assumption.',
-  'technique': 'Kani full-domain loop-free proofs on the real Distance default methods',
- },
- 'C07': {
+  'text': 'Three links, each proved on the real code. (1) Kani, all f32 values: the default Distance::side stores an item Right iff its margin is positive and Left iff negative; Distance::pq_distance gives the child on the margin side a priority >= the other child (equal only when the inherited bound d <= -|margin|), and from a root exactly (-margin, margin); no metric overrides them. (2) Verus, writer: make_tree_in_file and insert_items_in_file place every item under the child that side() chose for it against the split plane actually stored (unless the plane is the zeroed random-split plane), and a rewritten split keeps its plane and each side keeps its items (children are never swapped). (3) Verus, reader: every entry pushed by nns_by_leaf is the Left (Right) child of the split just read with priority pq_distance(d, margin(plane, query), Left (Right)).',
+  'note': 'The composition needs margin(plane, query) = margin(query, plane) (IEEE commutativity and identical summation order of the kernels: assumed) and leaves ties d <= -|margin| to node-id order.',
+  'technique': 'Kani full-domain proofs on the real Distance default methods + Verus placement postconditions / loop invariants on extracted writer and reader functions',
+ }, 'C07': {
   'text': 'Every Verus contract of the item-store mutators carries the frame other_indexes_unchanged(old, new, self.index) over the abstract database view and is discharged from stand-in contracts that touch one key or one prefix/range; Kani proves on the real KeyCodec/PrefixCodec, for all u16 indexes (0 and 65535 included) and all u32 ids, that keys are be16(index) kind be32(id) 0, that byte order = (index, kind, id) order, that a prefix selects exactly its index (and kind), and that the tree range used by delete_range contains exactly the tree keys of the index.',
   'note': 'The frame of build / prepare_changing_distance is claimed where those units are listed in the evidence. LMDB prefix / range semantics are assumed (stand-ins).',
   'technique': 'Verus frame postconditions on extracted real functions + Kani proof of the real key codec',
